@@ -136,7 +136,7 @@ CLAIMED["C10"] = (
 )
 CLAIMED["C11"] = (
     "fault_enumeration",
-    "fault injection by enumeration: for generated histories (and first start-up / start-up on a version-k database) a counting dry run numbers every durable effect (DB statement/commit, file-system primitive, file write/flush/close via a sys.monitoring CALL hook) and a forked child is killed (os._exit) just before each effect k = 1..K; oracle = recovery in a fresh process compared with snapshots of the acknowledged states and with the log of everything the client was told",
+    "fault injection by enumeration: for generated histories (and first start-up / start-up on a version-k database) a counting dry run numbers every durable effect (every statement/commit handed to the SQLite connection; every os.rename/remove/link/mkdir/rmdir/utime/truncate and every open-for-writing, seen by a sys.addaudithook hook; every flush/close/unbuffered write of a writable file, seen by a sys.monitoring CALL hook) and a forked child is killed (os._exit) just before each effect k = 1..K; oracle = recovery in a fresh process compared with snapshots of the acknowledged states and with the log of everything the client was told",
     "Every crash point of each generated history is enumerated (quick: start-up kinds with stride 3; thorough: every point). After each kill the server must start, LIST must work and every selectable mailbox must open; all messages and flags acknowledged before the kill must be there (the in-flight command's effects may be absent, partial or complete), no revealed (UIDVALIDITY, UID) may name another message and UIDNEXT must exceed every revealed UID.",
     "Trusted: the effect counter (sys.monitoring + the inline DB queue), fork/os._exit as the crash model (no torn write(2), no power loss / fsync reordering), determinism of the replayed execution, and C12 for reading snapshots back through a restarted server.",
     "DESIGN.md section 4 C11",
